@@ -33,7 +33,7 @@ META = {
             "TLC checks every list-level clause on all 10 x 2048 golden words (distinct, own index and no other, strictly sorted under the search order for both char signednesses, unique 4-letter heads, no word of >= 4 letters a prefix of another, every abbreviation unambiguous); the code's word tables, registry, names and flags are compared with golden exhaustively (direct table read, every word through the search, every index at every phrase position through encode/decode, the debug self-test with the real normaliser)",
             "golden snapshot is the publication at the pinned release; clause 'no word is a prefix of another' read as stated in DESIGN.md (literal reading false for BIP-39 en/es 3-letter words)", TV + " (exhaustive)"),
     "C08": ("model_checking", "6/C08",
-            "the acceptance rule is Wordlists.Accepts; TLC judges the outcome of the library's word search for every character-prefix length x every subset of accents kept/dropped of every word (all accented words, sample/all of the others), negative tokens, whole phrases with independent NFC/NFD variants per position through the real normaliser, and a mass sweep of pseudo-random tokens over each list's own characters (2^21 quick / 2^26 thorough per Chinese list) in which every token the library accepts is judged by the rule",
+            "the acceptance rule is Wordlists.Accepts; TLC judges the outcome of the library's word search for every character-prefix length x every subset of accents kept/dropped of every word (all accented words, sample/all of the others), negative tokens, whole phrases with independent NFC/NFD variants per position through the real normaliser, and a mass sweep of pseudo-random tokens over each list's own characters (2^21 quick / 2^25 thorough per Chinese list) in which every token the library accepts is judged by the rule",
             "internal search entry point polyseed_lang_find_word observed directly and through both decoders", TV),
     "C09": ("model_checking", "6/C09",
             "TLC proves on the specification that automatic decoding is determined by the ten explicit outcomes exactly as stated (TheoremsSplit: all strings over {a,b,space} up to a length for the splitter; 4096 token sequences over real lists for the relation and precedence); every structured string is given to polyseed_decode (with and without a language pointer) and to polyseed_decode_explicit for all ten languages, also under a failing allocator; every outcome is judged by TLC; two executions per string (automatic first / explicit first) and two relations of the trace specification: explicit decoding with the unique recognising language returns exactly the earlier automatic status, and automatic decoding returns exactly the earlier explicit status of that language",
